@@ -584,7 +584,9 @@ pub fn extract_to_dir<RS: Read + Seek + HasLength>(
                     if file.is_dir() {
                         let target_dir = target_dir.join(file_name);
                         // println!("creating dir: {}", target_dir.display());
-                        std::fs::create_dir_all(target_dir)?;
+                        if std::fs::create_dir_all(target_dir).is_err() {
+                            continue; // e.g. a file with that name exists already. dont fail the other members
+                        }
                     } else if file.is_file() {
                         let new_file_name = if let Some(new_file_name) =
                             rename_map.get(file_name.to_string_lossy().as_ref())
@@ -596,8 +598,15 @@ pub fn extract_to_dir<RS: Read + Seek + HasLength>(
                         let target_file = target_dir.join(&new_file_name);
                         // todo skip existing files!
                         if let Some(target_dir) = target_file.parent() {
-                            std::fs::create_dir_all(target_dir)?;
-                            let mut target_file = std::fs::File::create(target_file)?;
+                            // members that cannot be created (name too long, empty, dir with that name exists,...)
+                            // are skipped (and not reported) but dont fail the extraction of the other members
+                            if std::fs::create_dir_all(target_dir).is_err() {
+                                continue;
+                            }
+                            let mut target_file = match std::fs::File::create(target_file) {
+                                Ok(f) => f,
+                                Err(_) => continue,
+                            };
                             // use a cancelable copy here
                             //std::io::copy(&mut file, &mut target_file)?;
                             // todo or better a cancelable reader? (check what's faster)
